@@ -9,7 +9,7 @@ FOUNDATIONS = ['harness.foundation.filteriter', 'harness.foundation.pybody']   #
 LEAN_TARGETS = ['Mahotas.Proofs.FilterIter']
 LEVEL = 'proof'
 MODES = ['nearest', 'wrap', 'reflect', 'mirror', 'constant', 'ignore']
-DTYPES = ['float64', 'float32', 'int32', 'uint8', 'int8', 'int64', 'uint16', 'bool']
+DTYPES = ['float64', 'float32', 'int32', 'uint8', 'int8', 'int64', 'uint16', 'bool', 'int16', 'uint32', 'uint64']
 DTN = {'float64': 'f64', 'float32': 'f32', 'bool': 'b1', 'uint8': 'u8', 'uint16': 'u16', 'uint32': 'u32',
        'uint64': 'u64', 'int8': 'i8', 'int16': 'i16', 'int32': 'i32', 'int64': 'i64'}
 # dyadic sigmas: 4*sigma+0.5 is computed exactly in double, so int(4*sigma+0.5) has no rounding ambiguity - both the
@@ -19,14 +19,18 @@ SIGMAS = [0.25, 0.5, 0.75, 1.0, 1.25, 1.5, 2.0, 2.5, 3.0, 0.375, 0.625, 0.875, 1
 RULE = ('corpus; systematic 1-D sweep (axis lengths 1-5 x kernel lengths 1..10N+1 x 6 modes, distinct sample values); '
         'random 1-3 D x 8 dtypes x 7 layouts x kernels of every shape (odd/even, with zeros, asymmetric, larger than the '
         'image up to 10x the axis length, strided kernels) x 6 modes x every axis incl. negative; raw fast-path entry point '
-        'against the write-sequence model; Gaussian: sigma grid x orders 0-3 x 6 modes, unit ramps. '
+        'against the write-sequence model; Gaussian: sigma grid x orders 0-3 x 6 modes, unit ramps; size-threshold stream: '
+        'rows of 2^16 +- 1 and more pixels with 255-300 taps (Gaussian: sigma 64, 513 taps), judged with an exact vectorised '
+        'numpy oracle of the defining sum whose agreement with the Lean specification is checked on the small convolve1d cases. '
         'Non-trivial = output differs from the input; distinct = distinct protocol line + layout.')
 ASSUMPTIONS = ['weights are cast to the dtype of f first (documented: "If not of the same dtype as f, it is cast"); '
                'the defining sum is taken with the cast weights',
                'pixels whose exact result lies outside the dtype range are not compared (C++ double->integer cast undefined)',
                'array and kernel values are integers or dyadic fractions of small magnitude, so every double operation is exact '
                'and the comparison is bit-for-bit (as numbers: -0.0 == 0.0)',
-               'Gaussian filters: comparison within 1e-11*(1+max|f|) (float64) / 1e-5 relative (float32); sigma on a grid with '
+               'Gaussian filters: comparison within 1e-11*(1+max|f|) (float64); float32: within 1 ulp of float32 of the model accumulator cast to float32 '
+               '(+ 2 ulp at the data scale per further pass of the n-D filter); convolve/convolve1d: bit-for-bit for every dtype (float32 = the '
+               'correctly rounded cast of the double accumulator), on data that includes +-2^24..2^26 mixed with units; sigma on a grid with '
                'dyadic values (4*sigma+0.5 exact in double, exact ties included); constant mode only with cval = 0 (the only value accepted)',
                'order-1 ramp response: |r - 1| < 5e-3 for sigma >= 1 at pixels farther than 4 sigma + 1 from the border',
                'no NaN/inf in arrays or kernels; sizes < 2^31']
@@ -47,6 +51,14 @@ def _line(case):
         # the weights are the model's `laplacianWeightsG` (sum 0: C06_laplacian_weights_sum_zero)
         return (f"c06 kind=laplacian dt=f64 mode=0 shape={gen.enc_shape(case['shape'])} "
                 f"data={core.fmt_floats(_arr(case).astype(np.float64))} alpha={core.fmt_floats([float(case['alpha'])])}")
+    if k == 'sobel':
+        # sobel(img, just_filter=True): img as double, normalisation, two 3x3 convolutions (nearest), squares, sum
+        return (f"c06 kind=sobel dt=f64 mode=0 shape={gen.enc_shape(case['shape'])} "
+                f"data={core.fmt_floats(_arr(case).astype(np.float64))}")
+    if k == 'dog':
+        return (f"c06 kind=dog dt=f64 mode=0 shape={gen.enc_shape(case['shape'])} "
+                f"data={core.fmt_floats(_arr(case).astype(np.float64))} sigma={core.fmt_floats([float(case['sigma'])])} "
+                f"mult={core.fmt_floats([float(case['mult'])])}")
     dtn = DTN[case['dtype']]
     if k == 'gaussian' and np.dtype(case['dtype']).kind != 'f':
         dtn = 'f64'                                    # _as_floating_point_array: integers are converted to double
@@ -60,7 +72,8 @@ def _line(case):
         return base + (f" sigma={core.fmt_floats([case['sigma']])} order={case['order']} axis={case['axis']} "
                        f"contig={int(case.get('_contig', 1))}")
     if k == 'gaussian':
-        return base + f" sigma={core.fmt_floats(case['sigma'])} order={gen.enc_arr(case['order'])}"
+        return (base + f" sigma={core.fmt_floats(case['sigma'])} order={gen.enc_arr(case['order'])}"
+                + (' sform=scalar' if case.get('sigma_scalar') else '') + (' oform=scalar' if case.get('order_scalar') else ''))
     raise ValueError(k)
 
 
@@ -108,7 +121,14 @@ def _call(case, Al):
         if k == 'gaussian1d':
             return mh.gaussian_filter1d(Al, case['sigma'], case['axis'], case['order'], mode=case['mode'])
         if k == 'gaussian':
-            return mh.gaussian_filter(Al, case['sigma'], case['order'], mode=case['mode'])
+            # `_normalize_sequence`: a scalar stands for the same value on every axis
+            sg = case['sigma'][0] if case.get('sigma_scalar') else (tuple(case['sigma']) if case.get('as_tuple') else case['sigma'])
+            od = case['order'][0] if case.get('order_scalar') else (tuple(case['order']) if case.get('as_tuple') else case['order'])
+            return mh.gaussian_filter(Al, sg, od, mode=case['mode'])
+        if k == 'sobel':
+            return mh.sobel(Al, just_filter=True)
+        if k == 'dog':
+            return mh.dog(Al, case['sigma'], case['mult'], just_filter=True)
     raise ValueError(k)
 
 
@@ -122,16 +142,104 @@ def _range(dtype):
     return float(ii.min), float(ii.max)
 
 
+def _border_index(x, n, mode):
+    """`borderSpec` of Model/Border.lean on an integer array of coordinates: (index, valid)"""
+    if mode == 'nearest':
+        return np.clip(x, 0, n - 1), np.ones(x.shape, bool)
+    if mode == 'wrap':
+        return x % n, np.ones(x.shape, bool)
+    if mode == 'reflect':
+        m = x % (2 * n)
+        return np.where(m < n, m, 2 * n - 1 - m), np.ones(x.shape, bool)
+    if mode == 'mirror':
+        if n <= 1:
+            return np.zeros_like(x), np.ones(x.shape, bool)
+        m = x % (2 * n - 2)
+        return np.where(m < n, m, 2 * n - 2 - m), np.ones(x.shape, bool)
+    ok = (x >= 0) & (x < n)                          # constant (cval = 0) / ignore: the sample contributes nothing
+    return np.where(ok, x, 0), ok
+
+
+def _oracle_conv1d(A, w, axis, mode):
+    """exact vectorised oracle for the size-threshold stream (the Lean driver builds position lists: too slow for 10^5
+    pixels x 257 taps): sum_j w[j] * f[border(x + j - len(w)//2)] along `axis`, accumulated in double in footprint
+    order (all values are small integers: every double operation is exact). Its agreement with the Lean specification is
+    established on the small random convolve1d cases of every run."""
+    A = np.moveaxis(np.asarray(A, np.float64), axis, -1)
+    n = A.shape[-1]
+    acc = np.zeros(A.shape, np.float64)
+    x = np.arange(n)
+    c = len(w) // 2
+    for j, wj in enumerate(w):
+        if wj == 0:
+            continue
+        idx, ok = _border_index(x + j - c, n, mode)
+        acc += np.where(ok, A[..., idx], 0.0) * float(wj)
+    return np.moveaxis(acc, -1, axis)
+
+
+def _eval_big(case):
+    import mahotas as mh
+    rs = np.random.RandomState(case['seed'])
+    shape, axis, dt = case['shape'], case['axis'], np.dtype(case['dtype'])
+    A = rs.randint(0, 4, size=shape).astype(dt)
+    if dt.kind == 'f':
+        A = A - 1
+    w = rs.randint(0, 3, size=case['taps']).astype(np.float64)
+    w[0], w[-1] = 1.0, 2.0                        # the two extreme taps take part
+    if dt.kind == 'f' or dt.kind == 'i':
+        w[case['taps'] // 2] = -1.0
+    mode = case['mode']
+    want = _oracle_conv1d(A, w, axis, mode)
+    lo, hi = _range(dt)
+    ok = (want >= lo) & (want <= hi)                 # integer-valued accumulators: the cast is the identity where defined
+    f = []
+    fn = case['fn']
+    if fn == 'convolve1d':
+        got = mh.convolve1d(A, w, axis, mode=mode)
+    elif fn == 'convolve':
+        ws = [1] * len(shape); ws[axis] = len(w)
+        got = mh.convolve(A, w.reshape(ws), mode=mode)
+    else:                                            # gaussian_filter1d: weights from the Lean driver, summed by the oracle
+        sigma = case['sigma']
+        gw = core.floats(core.drive([f"c06 kind=gaussw sigma={core.fmt_floats([sigma])} order={case['order']} dt=f64 mode=0 shape=1 data=0"])[0]['w'])
+        want = _oracle_conv1d(A, gw, axis, mode)
+        got = mh.gaussian_filter1d(A.astype(np.float64), sigma, axis, case['order'], mode=mode)
+        bad = np.nonzero(~(np.abs(got - want) <= 1e-10 * 4).ravel())[0]
+        if got.shape != want.shape or bad.size:
+            f.append(dict(kind='property', key='gaussian1d:size-threshold', detail=dict(first_bad=bad[:5].tolist(), taps=len(gw))))
+        return f, len(gw)
+    g = np.asarray(got, np.float64)
+    bad = np.nonzero((ok & (g != want)).ravel())[0]
+    if got.shape != want.shape or got.dtype != dt or bad.size:
+        f.append(dict(kind='property', key=f'{fn}:size-threshold',
+                      detail=dict(first_bad=bad[:5].tolist(), got=g.ravel()[bad[:5]].tolist(), spec=want.ravel()[bad[:5]].tolist())))
+    return f, len(w)
+
+
+def _defined(drv, n):
+    d = drv.get('defined')
+    ok = np.ones(n, bool) if d is None else np.array([c == '1' for c in d.split(',')] if d else [], bool)
+    if drv.get('wdef') == '0':
+        ok = np.zeros(n, bool)
+    return ok
+
+
 def _judge(case, got, drv):
     out = []
     k = case['kind']
     if 'error' in drv:
         raise core.Infra('driver: ' + drv['error'])
+    if drv.get('raises') == 'ValueError':
+        # a sigma / order sequence whose length is not the rank: `_normalize_sequence` must raise ValueError (model: none)
+        if got is not None or 'ValueError' not in case.get('_error', ''):
+            return [dict(kind='model', key='gaussian:normalize-sequence', detail=dict(error=case.get('_error', ''), returned=got is not None))]
+        return []
     if got is None:
         return [dict(kind='property', key=f'{k}:raises', detail=dict(error=case.get('_error', '')))]   # every input of the domain is valid
     A = _arr(case)
     want_dt = A.dtype
-    if k == 'laplacian' or (k == 'gaussian' and A.dtype.kind != 'f'):
+    if k in ('laplacian', 'sobel', 'dog') or (k == 'gaussian' and A.dtype.kind != 'f'):
         want_dt = np.dtype(np.float64)
     if got.shape != A.shape or got.dtype != want_dt:
         return [dict(kind='property', key=f'{k}:shape-dtype', detail=dict(shape=list(got.shape), dtype=str(got.dtype)))]
@@ -139,9 +247,31 @@ def _judge(case, got, drv):
     model = core.floats(drv.get('model', ''))
     path = drv.get('path', 'generic')
     case['_path'] = path
+    if k == 'sobel':
+        # integer data with a power-of-two range: every double operation is exact, so bit-for-bit. Not in the statement
+        # (edge.py is built from the C06 kernels): a disagreement is a broken tie of the composition model
+        bad = np.nonzero(g != model)[0]
+        if bad.size:
+            out.append(dict(kind='model', key='sobel-model', detail=dict(pixels=bad[:8].tolist(), got=g.tolist(), model=model.tolist())))
+        return out
+    if k == 'dog':
+        scale = 1.0 + float(np.max(np.abs(A))) if A.size else 1.0
+        bad = np.nonzero(~(np.abs(g - model) <= 1e-11 * scale))[0]
+        if bad.size:
+            out.append(dict(kind='model', key='dog-model', detail=dict(pixels=bad[:8].tolist(), got=g.tolist(), model=model.tolist())))
+        return out
     if k in ('gaussian1d', 'gaussian'):
         scale = 1.0 + float(np.max(np.abs(A))) if A.size else 1.0
-        tol = (1e-11 if A.dtype == np.float64 or A.dtype.kind != 'f' else 1e-5) * scale
+        tol = 1e-11 * scale              # float64 output: the weights go through exp and numpy's pairwise sum
+        if A.dtype == np.float32:
+            # float32 output: `model` is the model's double accumulator cast to float32 (round to nearest even, as the C cast).
+            # The real value is the cast of a double accumulator that differs from the model's by <= 1e-11*scale, so it is the
+            # same float32 or a neighbour: within 1 ulp of float32 at the model value (plus the double-level floor); for the
+            # n-D filter every further pass can move an intermediate float32 by one ulp at the scale of the data
+            with np.errstate(all='ignore'):
+                ulp = np.spacing(np.abs(model).astype(np.float32)).astype(np.float64)
+                extra = (len(case['shape']) - 1) * 2.0 * float(np.spacing(np.float32(scale))) if k == 'gaussian' else 0.0
+            tol = np.maximum(ulp, 1e-11 * scale) + extra
         err = np.abs(g - model)
         bad = np.nonzero(~(err <= tol))[0]
         if bad.size:
@@ -153,24 +283,40 @@ def _judge(case, got, drv):
         if int(drv['unwritten']) != 0 or sorted(core.ints(drv['xs'])) != list(range(case['shape'][1])):
             out.append(dict(kind='model', key='fastwrites:coverage', detail=dict(xs=drv['xs'], unwritten=drv['unwritten'])))
         m = core.floats(drv['out'])
-        lo, hi = _range(case['dtype'])
-        ok = (m >= lo) & (m <= hi)
+        ok = _defined(drv, m.size)
+        case['_skipped'] = int((~ok).sum())
         bad = np.nonzero(ok & (g != m))[0]
         if bad.size:
             out.append(dict(kind='model', key='fastwrites:value',
                             detail=dict(pixels=bad[:8].tolist(), got=g.tolist(), model=m.tolist())))
         return out
     spec = core.floats(drv['spec'])
+    if k == 'convolve1d' and A.size and drv.get('wdef') != '0' and A.dtype.kind != 'b' and np.isfinite(spec).all():
+        # the numpy oracle of the size-threshold stream must agree with the Lean specification on the small cases
+        # (before the cast: compared where the cast is the identity, i.e. integer-valued accumulators in range)
+        with np.errstate(all='ignore'):
+            wc = np.array(case['w'], np.float64).astype(A.dtype).astype(np.float64)
+        o = _oracle_conv1d(A, wc, case['axis'] % A.ndim, case['mode']).ravel()
+        same = (o == np.trunc(o)) & _defined(drv, spec.size) & (np.abs(o) < 2 ** 24)
+        if A.dtype.kind != 'f' and (o[same] != spec[same]).any():
+            raise core.Infra('C06: the numpy oracle of the size-threshold stream disagrees with the Lean spec on ' + str(case)[:300])
     lo, hi = _range(case['dtype'] if k != 'laplacian' else 'float64')
-    ok = (spec >= lo) & (spec <= hi)
+    # which cells are compared is decided by the Lean model of the C cast (`castDefined`: the truncated accumulator is
+    # representable; C06_cast_in_range) - everywhere else `static_cast<T>(double)` is undefined behaviour. A weight whose
+    # own cast to f.dtype is undefined (`wdef=0`) puts the whole call outside the documented domain.
+    ok = _defined(drv, spec.size)
+    if not np.array_equal(ok & np.isfinite(spec), ok & (spec >= lo) & (spec <= hi)):
+        raise core.Infra('C06: castDefined disagrees with the dtype range: ' + str(case)[:300])
     case['_skipped'] = int((~ok).sum())
+    if drv.get('wdef') == '0':
+        case['_wundef'] = 1
     bad = np.nonzero(ok & (g != spec))[0]
     if bad.size:
         out.append(dict(kind='property', key=f'{k}:{path}',
                         detail=dict(pixels=bad[:8].tolist(), got=g.tolist(), spec=spec.tolist(), path=path,
                                     mode=case['mode'])))
     else:
-        okm = (model >= lo) & (model <= hi) & ok
+        okm = ok
         badm = np.nonzero(okm & (g != model))[0]
         if badm.size:
             out.append(dict(kind='model', key=f'{k}-model:{path}',
@@ -213,7 +359,7 @@ def _ramp(case):
 
 def evaluate(cases):
     res = []
-    plain = [c for c in cases if c['kind'] != 'ramp']
+    plain = [c for c in cases if c['kind'] not in ('ramp', 'big')]
     prepared = {}
     lines = []
     for c in plain:
@@ -222,6 +368,14 @@ def evaluate(cases):
     drvs = dict(zip([id(c) for c in plain], core.drive(lines)))
     lns = dict(zip([id(c) for c in plain], lines))
     for case in cases:
+        if case['kind'] == 'big':
+            f, taps = _eval_big(case)
+            for x in f:
+                x['case'] = case
+            res.append(dict(findings=f, nontrivial=True, sig=json.dumps(case, sort_keys=True),
+                            tags=dict(kind=case['fn'], mode=case['mode'], ndim=len(case['shape']), dtype=case['dtype'],
+                                      size='threshold', kernel='taps>=256' if taps >= 256 else 'taps<256')))
+            continue
         if case['kind'] == 'ramp':
             f = _ramp(case)
             res.append(dict(findings=f, nontrivial=True, sig=json.dumps(case, sort_keys=True),
@@ -250,6 +404,8 @@ def evaluate(cases):
             tags['axis'] = 'neg' if ax < 0 else 'pos'
         if case.get('_skipped'):
             tags['overflow_pixels_skipped'] = 'yes'
+        if case.get('_wundef'):
+            tags['weights_cast_undefined'] = 'yes'
         clean = {k: v for k, v in case.items() if not k.startswith('_')}
         for x in f:
             x['case'] = clean
@@ -271,10 +427,21 @@ def _values(rng, n, dtype):
     dt = np.dtype(dtype)
     if dt.kind == 'b':
         return [int(rng.random() < 0.5) for _ in range(n)]
+    if dt.kind in 'ui' and dt.itemsize <= 2 and rng.random() < 0.15:
+        # values at the limits of a narrow dtype: accumulators beyond the range (skipped cells) next to cells just inside
+        ii = np.iinfo(dt)
+        pool = [int(ii.max), int(ii.max) - 1, int(ii.max) // 2, 0, 1] + ([int(ii.min), int(ii.min) + 1, -1] if ii.min < 0 else [])
+        return [rng.choice(pool) for _ in range(n)]
     if dt.kind == 'u':
         return [rng.randint(0, 9) for _ in range(n)]
     if dt.kind == 'i':
         return [rng.randint(-6, 9) for _ in range(n)]
+    if rng.random() < 0.15:
+        # cancellation-heavy data: +-2^24..2^26 mixed with small numbers. Every product with a small dyadic weight and every
+        # partial sum is exact in double, but a single-precision accumulator loses the small terms (2^25 + 1 - 2^25 = 0),
+        # so it cannot hide in a tolerance; the final cast to float32 is the correctly rounded one
+        pool = [2.0 ** 24, -2.0 ** 24, 2.0 ** 25, -2.0 ** 25, 2.0 ** 26, -2.0 ** 26, 1.0, -1.0, 3.0, 0.5, 1.0, 0.0]
+        return [rng.choice(pool) for _ in range(n)]
     if rng.random() < 0.3:
         return [rng.randint(-24, 36) / 4.0 for _ in range(n)]
     return [float(rng.randint(-6, 9)) for _ in range(n)]
@@ -289,7 +456,9 @@ def _weights(rng, n, dtype):
         if u < 0.25:
             out.append(0.0)
         elif style < 0.15 and dt.kind != 'f':
-            out.append(rng.randint(-9, 9) / 4.0)            # fractional weights on an integer image: cast truncates
+            # fractional weights on an integer image: the cast truncates; mostly non-negative for unsigned images (a weight
+            # below -1 has no defined cast there: the case is then void, tagged weights_cast_undefined)
+            out.append((rng.randint(-3, 9) if dt.kind in 'ub' and rng.random() < 0.9 else rng.randint(-9, 9)) / 4.0)
         elif dt.kind == 'f' and style < 0.4:
             out.append(rng.randint(-12, 12) / 4.0)
         elif dt.kind in 'ub':
@@ -343,6 +512,19 @@ def cases(rng, tier):
             out.append(dict(kind='ramp', dtype='float64', sigma=sigma, ndim=ndim, axis=axis, n=int(8 * sigma) + 12,
                             mode=rng.choice(MODES if via == '1d' or ndim == 1 else MODES[:4]), via=via, neg=rng.random() < 0.5,
                             slope=rng.choice([1, 1, 2, -3]), layout=rng.choice(['C', 'F', 'strided'])))
+    # size-threshold stream: rows of 2^16 +- 1 and more pixels, kernels crossing 256 taps (a row index, tap counter or
+    # offset narrowed to 8/16 bits passes every small case); judged with the exact numpy oracle `_oracle_conv1d`
+    nbig = dict(quick=4, thorough=24, search=4)[tier]
+    for i in range(nbig):
+        n = rng.choice([65535, 65536, 65537, 65537, 70000 + rng.randrange(999)])
+        taps = rng.choice([255, 256, 257, 257, 300])
+        fn = ['convolve1d', 'convolve1d', 'convolve', 'gaussian1d'][i % 4]
+        shape, axis = rng.choice([([n], 0), ([2, n], 1), ([n, 2], 0), ([1, n, 1], 1)])
+        c = dict(kind='big', fn=fn, shape=shape, axis=axis, taps=taps, dtype=rng.choice(['float64', 'int32', 'uint16', 'uint8', 'float32']),
+                 mode=rng.choice(MODES), seed=rng.randrange(10 ** 6))
+        if fn == 'gaussian1d':
+            c.update(dtype='float64', sigma=rng.choice([63.875, 64.0, 64.125]), order=rng.choice([0, 0, 1]))   # lw = 256 / 257: 513 / 515 taps
+        out.append(c)
     for _ in range(nrand):
         r = rng.random()
         dtype = rng.choice(DTYPES)
@@ -371,6 +553,37 @@ def cases(rng, tier):
             shape = [rng.choice([1, 2, 3, 4, 6]), rng.choice([1, 2, 3, 5])]
             out.append(dict(kind='laplacian', dtype=dtype, shape=shape, data=_values(rng, int(np.prod(shape)), dtype),
                             alpha=rng.choice([0, 1, 0.0, 1.0, -2, 3]), mode='nearest', layout=layout))   # dyadic weights
+        elif r < 0.845:
+            # edge.sobel / edge.dog (just_filter=True): compositions of the C06 kernels
+            shape = [rng.randint(1, 7), rng.randint(1, 7)]
+            n = shape[0] * shape[1]
+            if rng.random() < 0.7:
+                k = rng.choice([0, 1, 2, 3, 4, 6])
+                lo = rng.choice([0, 0, -5, 3, 100])
+                if dtype == 'bool':
+                    k, lo = 0, 0
+                elif np.dtype(dtype).kind == 'u' or np.dtype(dtype).itemsize == 1:
+                    lo = abs(lo) % 50
+                style = rng.random()
+                if style < 0.25 and shape[0] * shape[1] > 1:          # an affine ramp a*y + b*x (+ lo), range a power of two when possible
+                    a, b = rng.choice([(1, 0), (0, 1), (1, 1), (2, 1), (0, 2)])
+                    data = [lo + a * y + b * x for y in range(shape[0]) for x in range(shape[1])]
+                    if dtype == 'bool':
+                        data = [int(v > 0) for v in data]
+                else:
+                    data = [lo + rng.randint(0, 2 ** k) for _ in range(n)]
+                    if n >= 2 and style < 0.9:
+                        i, j = rng.sample(range(n), 2)
+                        data[i], data[j] = lo, lo + 2 ** k           # ptp = 2^k exactly: the normalisation is exact
+                ptp = max(data) - min(data)
+                if ptp & (ptp - 1):                                    # not a power of two: x/ptp is rounded, then not bit-exact
+                    data = [min(v, min(data) + (1 << (ptp.bit_length() - 1))) for v in data]
+                out.append(dict(kind='sobel', dtype=dtype if dtype != 'float32' else 'float64', shape=shape, data=[float(v) for v in data],
+                                mode='nearest', layout=layout))
+            else:
+                out.append(dict(kind='dog', dtype=rng.choice(['float64', 'uint8', 'int32']), shape=shape,
+                                data=[float(rng.randint(0, 9)) for _ in range(n)], sigma=rng.choice([0.5, 1.0, 2.0, 1.5]),
+                                mult=rng.choice([1.001, 1.5, 2.0]), mode='nearest', layout=layout))
         elif r < 0.87:
             n1 = rng.randint(2, 9)
             shape = [rng.randint(1, 3), n1]
@@ -392,12 +605,25 @@ def cases(rng, tier):
                 out.append(dict(kind='gaussian', dtype=gdt, shape=shape, data=_values(rng, int(np.prod(shape)), gdt),
                                 sigma=[rng.choice(SIGMAS)] * nd if same else [rng.choice(SIGMAS) for _ in range(nd)],
                                 order=[rng.randint(0, 3) for _ in range(nd)], mode=mode, layout=layout))
+                c = out[-1]
+                # the Python argument forms `_normalize_sequence` accepts: scalar (same on every axis), list, tuple
+                if len(set(c['sigma'])) == 1 and rng.random() < 0.6:
+                    c['sigma_scalar'] = True
+                if rng.random() < 0.4:
+                    c['order'] = [c['order'][0]] * nd
+                    c['order_scalar'] = True
+                c['as_tuple'] = rng.random() < 0.5
+                if rng.random() < 0.06:
+                    # a sequence of the wrong length: ValueError from `_normalize_sequence`
+                    which = rng.choice(['sigma', 'order'])
+                    c.pop('sigma_scalar', None) if which == 'sigma' else c.pop('order_scalar', None)
+                    c[which] = (c[which] + [c[which][0]]) if rng.random() < 0.5 or nd == 1 else c[which][:-1]
     return out
 
 
 def shrink(case):
     k = case['kind']
-    if k == 'ramp':
+    if k in ('ramp', 'big'):
         return
     shape, data = case['shape'], case['data']
     A = np.array(data, dtype=np.float64).reshape(shape)
